@@ -72,6 +72,14 @@ let () =
         (match plan_and_lookup (a = "1") (tokens_of_fields fs) with
          | SErr e -> print_endline ("plan=" ^ perr e ^ " fw=-")
          | SPlan (cl, f) -> print_endline ("plan=" ^ plan_str cl ^ " fw=" ^ fw_str f))
+    | "redir" :: fs ->
+        (match tokens_to_redirections (tokens_of_fields fs) with
+         | Inl (tk, rd) -> print_endline ("R(tokens=" ^ tokens_str tk ^ ",redirs=" ^ redirs_str rd ^ ")")
+         | Inr e -> print_endline ("E(" ^ rerr e ^ ")"))
+    | "fromtok" :: fs ->
+        (match from_tokens (tokens_of_fields fs) with
+         | Inl c -> print_endline (cmd_str c)
+         | Inr e -> print_endline (perr e))
     | ["hl"; f] ->
         (match highlight (str_of_field f) with
          | Ok rs -> print_endline (ranges_str rs)
